@@ -315,3 +315,48 @@ func (w *World) SignRenewal(rn *types.V2FileContractRenewal, r, h int) {
 	rn.RenterSignature = w.Keys.Priv[r].SignHash(sh)
 	rn.HostSignature = w.Keys.Priv[h].SignHash(sh)
 }
+
+// JunkEphemeralProofs returns b with every ephemeral parent (unassigned leaf index: created earlier in the block) of its
+// v2 transactions carrying n arbitrary hashes as Merkle proof. Nothing binds the proof of an ephemeral parent - the
+// block stays valid - so whatever the block reports afterwards must not depend on it. ok is false if b has no such
+// parent. The commitment is recomputed and the block re-sealed.
+func JunkEphemeralProofs(cs consensus.State, b types.Block, n int) (types.Block, bool) {
+	if b.V2 == nil || len(b.MinerPayouts) != 1 {
+		return b, false
+	}
+	junk := make([]types.Hash256, n)
+	for i := range junk {
+		junk[i] = types.Hash256{0xBA, 0xD0, byte(i)}
+	}
+	found := false
+	v2 := *b.V2
+	v2.Transactions = append([]types.V2Transaction(nil), b.V2.Transactions...)
+	for ti := range v2.Transactions {
+		t := v2.Transactions[ti]
+		t.SiacoinInputs = append([]types.V2SiacoinInput(nil), t.SiacoinInputs...)
+		for i := range t.SiacoinInputs {
+			if t.SiacoinInputs[i].Parent.StateElement.LeafIndex == types.UnassignedLeafIndex {
+				t.SiacoinInputs[i].Parent = t.SiacoinInputs[i].Parent.Copy()
+				t.SiacoinInputs[i].Parent.StateElement.MerkleProof = append([]types.Hash256(nil), junk...)
+				found = true
+			}
+		}
+		t.SiafundInputs = append([]types.V2SiafundInput(nil), t.SiafundInputs...)
+		for i := range t.SiafundInputs {
+			if t.SiafundInputs[i].Parent.StateElement.LeafIndex == types.UnassignedLeafIndex {
+				t.SiafundInputs[i].Parent = t.SiafundInputs[i].Parent.Copy()
+				t.SiafundInputs[i].Parent.StateElement.MerkleProof = append([]types.Hash256(nil), junk...)
+				found = true
+			}
+		}
+		v2.Transactions[ti] = t
+	}
+	if !found {
+		return b, false
+	}
+	nb := b
+	nb.V2 = &v2
+	nb.V2.Commitment = cs.Commitment(nb.MinerPayouts[0].Address, nb.Transactions, nb.V2.Transactions)
+	Seal(cs, &nb)
+	return nb, true
+}
